@@ -13,7 +13,7 @@
 (* Every evaluated container / object gets a fresh heap id so that          *)
 (* "the very same object" is a statement about ids.                         *)
 (***************************************************************************)
-EXTENDS AyMerge
+EXTENDS AyMerge, AyFiles
 
 VARIABLES work,     \* the tree being evaluated (Config evaluates a deep copy of the merged tree)
           stack,    \* evaluation stack: frames, innermost last
@@ -23,14 +23,15 @@ VARIABLES work,     \* the tree being evaluated (Config evaluates a deep copy of
           evlog,    \* every evaluate_node(<node>, path) call, in order (hits included)
           reqsafe,  \* EvalContext._require_all_safe
           taint,    \* cached paths whose value was produced with the help of an unsafe node (_eval_unsafe)
+          over,     \* what !rec nodes have built so far: sequence of <<path, tree>>; the tree is evaluated IN PLACE of the node
           status    \* "idle" | "running" | "done" | "EvalError" | "UnsafeError"
 
-evars == <<work, stack, cache, heap, calls, evlog, reqsafe, taint, status>>
+evars == <<work, stack, cache, heap, calls, evlog, reqsafe, taint, over, status>>
 
 NoTree == MkNode("nothing", NoVal, <<>>)
 
 EInit == /\ work = NoTree /\ stack = <<>> /\ cache = <<>> /\ heap = <<>> /\ calls = <<>>
-         /\ evlog = <<>> /\ reqsafe = FALSE /\ taint = {} /\ status = "idle"
+         /\ evlog = <<>> /\ reqsafe = FALSE /\ taint = {} /\ over = <<>> /\ status = "idle"
 
 \* value records
 VBunch(ch)     == [k |-> "bunch", v |-> NoVal, ch |-> ch, by |-> <<>>]
@@ -39,8 +40,12 @@ VAtom(a)       == [k |-> "atom", v |-> a, ch |-> <<>>, by |-> <<>>]
 VObj(p, ch)    == [k |-> "obj", v |-> NoVal, ch |-> ch, by |-> p]         \* what a !call returned
 VPartial(p, ch) == [k |-> "partial", v |-> NoVal, ch |-> ch, by |-> p]    \* what a !bind evaluates to
 
-Frame(p, node) == [p |-> p, i |-> 1, ids |-> <<>>, cur |-> node.ref, chain |-> <<p>>, wait |-> FALSE, rs |-> FALSE, u |-> FALSE]
+Frame(p, node) == [p |-> p, i |-> 1, ids |-> <<>>, cur |-> node.ref, chain |-> <<p>>, wait |-> FALSE, rs |-> FALSE, u |-> FALSE, ov |-> FALSE]
 
+\* the node a frame evaluates: a node of the working tree, or (ov) a node of the tree the innermost enclosing !rec built
+OverIdx(p) == CHOOSE i \in 1..Len(over) : PathPrefix(over[i][1], p) /\ \A j \in 1..Len(over) : PathPrefix(over[j][1], p) => Len(over[j][1]) <= Len(over[i][1])
+OverAt(p) == LET o == over[OverIdx(p)] IN At(o[2], SubSeq(p, Len(o[1]) + 1, Len(p)))
+FrameNode(f) == IF f.ov THEN OverAt(f.p) ELSE At(work, f.p)
 Top == stack[Len(stack)]
 Pop == SubSeq(stack, 1, Len(stack) - 1)
 SetTop(f) == [stack EXCEPT ![Len(stack)] = f]
@@ -52,11 +57,11 @@ NewId == Len(heap) + 1
 \* a node whose evaluation saw it grow is tainted itself.  Here: frame field u, handed to the enclosing frame on return.
 \* (Mutation NoTaint: the code before the fix - a cached value is handed out whatever it was made from.)
 Tainted(p) == p \in taint /\ ~Mut("NoTaint")
-TopTainted == Top.u \/ ~EffSafe(At(work, Top.p))
+TopTainted == Top.u \/ ~EffSafe(FrameNode(Top))
 \* hand value id (and whether it is tainted) to the frame on top of st1
 Return(st1, id, t) ==
     LET f == st1[Len(st1)]
-    IN IF At(work, f.p).k = "xref"
+    IN IF FrameNode(f).k = "xref"
        THEN [st1 EXCEPT ![Len(st1)] = [f EXCEPT !.ids = <<id>>, !.u = @ \/ t]]
        ELSE [st1 EXCEPT ![Len(st1)] = [f EXCEPT !.ids = Append(@, id), !.i = @ + 1, !.u = @ \/ t]]
 
@@ -79,11 +84,11 @@ StartOn(t) ==
     /\ status = "idle"
     /\ work' = t /\ status' = "running"
     /\ stack' = <<Frame(<<>>, t)>>
-    /\ UNCHANGED <<cache, heap, calls, evlog, reqsafe, taint>>
+    /\ UNCHANGED <<cache, heap, calls, evlog, reqsafe, taint, over>>
 \* Config.__init__: evaluate a deep copy of the merged tree
 Start(t) == StartOn(DeepCopy(t))
 
-Fail(kind) == /\ status' = kind /\ UNCHANGED <<work, stack, cache, heap, calls, evlog, reqsafe, taint>>
+Fail(kind) == /\ status' = kind /\ UNCHANGED <<work, stack, cache, heap, calls, evlog, reqsafe, taint, over>>
 
 \* finishing the top frame with value record val: allocate, cache, pop, hand over
 Finish(val, extraCalls) ==
@@ -101,7 +106,7 @@ Finish(val, extraCalls) ==
        /\ UNCHANGED <<work, evlog>>
 
 Running == status = "running" /\ stack # <<>>
-TopNode == At(work, Top.p)
+TopNode == FrameNode(Top)
 
 \* ---- scalars and placeholders ------------------------------------------------
 EvalScalar ==
@@ -136,11 +141,11 @@ EnterChild ==
             THEN /\ status' = "UnsafeError" /\ UNCHANGED <<work, stack, cache, heap, calls, reqsafe>>
             ELSE /\ stack' = SetTop([Top EXCEPT !.ids = Append(@, cache[ChildPath]), !.i = @ + 1, !.u = @ \/ Tainted(ChildPath)])
                  /\ UNCHANGED <<work, cache, heap, calls, reqsafe, status>>
-       ELSE /\ stack' = Append(stack, Frame(ChildPath, ChildNode))
+       ELSE /\ stack' = Append(stack, [Frame(ChildPath, ChildNode) EXCEPT !.ov = Top.ov])
             /\ UNCHANGED <<work, cache, heap, calls, reqsafe, status>>
 
 FinishContainer ==
-    /\ Running /\ IsComposed(TopNode) /\ (IsFn(TopNode) => Top.wait) /\ Top.i > Len(TopNode.ch)
+    /\ Running /\ IsComposed(TopNode) /\ TopNode.k # "rec" /\ (IsFn(TopNode) => Top.wait) /\ Top.i > Len(TopNode.ch)
     /\ LET kids == [j \in 1..Len(TopNode.ch) |-> <<TopNode.ch[j][1], Top.ids[j]>>]
        IN CASE TopNode.k = "call" ->
                  \* what the target returns: a fresh object, or (recording targets of the harness) None / a fresh empty list
@@ -152,6 +157,33 @@ FinishContainer ==
             [] TopNode.k = "bind" -> Finish(VPartial(Top.p, kids), <<>>) /\ reqsafe' = Top.rs
             [] IsList(TopNode)    -> Finish(VList(kids), <<>>) /\ UNCHANGED reqsafe
             [] OTHER              -> Finish(VBunch(kids), <<>>) /\ UNCHANGED reqsafe
+
+\* ---- !rec: the named files are built at evaluation time and evaluated in place of the node (recurse.py:68-98) ----
+\* every name is evaluated like a list element first (EnterChild); then a fresh Builder reads each file as a source
+\* whose safe flag is the safety of the NAME node (`builder.add_source(file, safe=child.ayns.safe)`), merges them,
+\* and `ctx.evaluate_node(<the built tree>, path)` evaluates the result under the node's own path.
+RecNames == [j \in 1..Len(TopNode.ch) |-> heap[Top.ids[j]].v[2]]
+RecBuild ==
+    /\ Running /\ TopNode.k = "rec" /\ ~Top.wait /\ Top.i > Len(TopNode.ch) /\ Len(Top.ids) = Len(TopNode.ch)
+    /\ UNCHANGED <<work, cache, heap, calls, taint, reqsafe>>
+    /\ IF \E j \in 1..Len(TopNode.ch) : heap[Top.ids[j]].k # "atom" \/ heap[Top.ids[j]].v[1] # "s" \/ ~HasFile(RecNames[j])
+       THEN status' = "EvalError" /\ UNCHANGED <<stack, evlog, over>>          \* not a string / FileNotFoundError
+       ELSE LET sub == FoldDocs([j \in 1..Len(TopNode.ch) |-> Parse(FileDoc(RecNames[j]), EffSafe(TopNode.ch[j][2]))])
+            IN IF IsErr(sub) THEN status' = "EvalError" /\ UNCHANGED <<stack, evlog, over>>
+               ELSE /\ evlog' = Append(evlog, Top.p)
+                    /\ over' = Append(over, <<Top.p, sub>>)
+                    /\ IF reqsafe /\ ~EffSafe(sub) THEN status' = "UnsafeError" /\ UNCHANGED stack
+                       ELSE /\ stack' = Append(SetTop([Top EXCEPT !.wait = TRUE]), [Frame(Top.p, sub) EXCEPT !.ov = TRUE])
+                            /\ UNCHANGED status
+RecTaken ==
+    /\ Running /\ TopNode.k = "rec" /\ Top.wait /\ Len(Top.ids) = Len(TopNode.ch) + 1
+    /\ LET id == Top.ids[Len(Top.ids)] IN
+       /\ cache' = PutCache(Top.p, id)
+       /\ taint' = IF TopTainted THEN taint \cup {Top.p} ELSE taint
+       /\ LET st1 == Pop IN
+          IF st1 = <<>> THEN stack' = st1 /\ status' = "done"
+          ELSE status' = status /\ stack' = Return(st1, id, TopTainted)
+    /\ UNCHANGED <<work, heap, calls, evlog, reqsafe, over>>
 
 \* ---- cross-references: one link per step --------------------------------------
 XRefReady == Running /\ TopNode.k = "xref" /\ Top.ids = <<>> /\ ~Top.wait
@@ -270,8 +302,9 @@ EvalOpaque ==
        ELSE Finish(VObj(Top.p, <<>>), <<[p |-> Top.p, fn |-> IF TopNode.k = "import" THEN TopNode.v[2] ELSE TopNode.k, args |-> <<>>]>>)
             /\ UNCHANGED reqsafe
 
-EStep == \/ EvalScalar \/ EvalRequired \/ FnGate \/ EnterChild \/ FinishContainer
-         \/ XRefAlias \/ XRefMissing \/ XRefFollow \/ XRefEnter \/ XRefTaken \/ EvalNameLookup \/ EvalNameTaken \/ EvalOpaque
+EStepNoRec == \/ EvalScalar \/ EvalRequired \/ FnGate \/ EnterChild \/ FinishContainer
+              \/ XRefAlias \/ XRefMissing \/ XRefFollow \/ XRefEnter \/ XRefTaken \/ EvalNameLookup \/ EvalNameTaken \/ EvalOpaque
+EStep == (EStepNoRec /\ UNCHANGED over) \/ RecBuild \/ RecTaken
 
 ETerminal == status \in {"done", "EvalError", "UnsafeError"}
 
